@@ -211,6 +211,36 @@ def directed(ctx, mod):
                 kw = {'weekday': W(w) if n is None else W(w, n)}
                 one_case(ctx, base, kw, R)
                 ctx.count('directed_weekday')
+    # a day of the year together with an explicit leap-day correction (and a month shift that carries the date past February)
+    for yd_key in ('yearday', 'nlyearday'):
+        for yd in (1, 31, 59, 60, 61, 100, 365, 366):
+            if yd_key == 'nlyearday' and yd == 366:
+                continue
+            for ld in (1, -1, 2):
+                for months in (0, 2, 3, -1):
+                    for base in (D.date(2024, 1, 10), D.date(2023, 1, 10), D.datetime(2000, 7, 4, 12, 30), D.date(1900, 5, 17)):
+                        kw = {yd_key: yd, 'leapdays': ld}
+                        if months:
+                            kw['months'] = months
+                        one_case(ctx, base, kw, R)
+                        ctx.count('directed_yearday_leapdays')
+                # the fields the constructor derives: month and day of the year day; the leap-day correction is the explicit one
+                # unless the year day lies after February (yearday 60..365: -1, so that the day number counts 29 February)
+                try:
+                    got = R(**{yd_key: yd, 'leapdays': ld})
+                    first = D.date(2023, 1, 1) + D.timedelta(days=min(yd, 365) - 1)
+                    want_ld = -1 if (yd_key == 'yearday' and 59 < yd < 366) else ld
+                    want_md = (got.month, got.day) if yd == 366 else (first.month, first.day)     # (366 is kept as 32 December and clipped)
+                    ctx.ev()
+                    if (got.leapdays, got.month, got.day) != (want_ld,) + want_md:
+                        ctx.violation('constructor-fields', {'kw': {yd_key: yd, 'leapdays': ld}},
+                                      'leapdays / month / day = %r, expected %r' % ((got.leapdays, got.month, got.day), (want_ld,) + want_md))
+                except Exception as e:
+                    ctx.violation('constructor-raised', {'kw': {yd_key: yd, 'leapdays': ld}}, '%s: %s' % (type(e).__name__, e))
+    # a delta that consists of the leap-day correction only
+    for ld in (1, -1, 3):
+        for base in (D.date(2024, 3, 1), D.date(2024, 2, 28), D.date(2023, 3, 1), D.datetime(2000, 12, 31, 23, 59, 59)):
+            one_case(ctx, base, {'leapdays': ld}, R)
     # month clipping: every month end x month shifts -14..14
     for y in (1999, 2000, 2100):
         for m in range(1, 13):
